@@ -82,6 +82,19 @@ Proof.
   unfold follow in Hf. destruct (peek mx (SS p)) as [[i t]|]; [apply HP, Hf | exact I].
 Qed.
 
+Lemma bind_accept_first_hit {B} ps (f : option (Z * token) -> M B) p mx i t r :
+  forallb pat_nontrivia ps = true -> 0 <= p -> SS p = (i, t) :: r -> i < lim mx -> anyof ps (kd t) = true ->
+  bindM (accept_first ts ps) f (p, mx) = f (Some (i, t)) (i + 1, mx).
+Proof. intros. apply bind_ok. eapply accept_first_hit; eassumption. Qed.
+
+Lemma bind_accept_first_miss {B} P ps (f : option (Z * token) -> M B) p mx :
+  forallb pat_nontrivia ps = true -> 0 <= p -> follow P mx (SS p) -> (forall k0, P k0 = true -> nomatch ps k0 = true) ->
+  bindM (accept_first ts ps) f (p, mx) = f None (p, mx).
+Proof.
+  intros Hp Hq Hf HP. apply bind_ok. apply accept_first_miss; [exact Hp | exact Hq|].
+  unfold follow in Hf. destruct (peek mx (SS p)) as [[i t]|]; [apply HP, Hf | exact I].
+Qed.
+
 Lemma follow_known (q : pat) mx p i t r : SS p = (i, t) :: r -> kmatch (kd t) q = true -> follow (anyof [q]) mx (SS p).
 Proof. intros Hs Hk. rewrite Hs. apply follow_head. unfold anyof. cbn [existsb]. rewrite Hk. reflexivity. Qed.
 
@@ -197,6 +210,15 @@ Ltac open_node :=
   | HC : ParserComplete2.CTX ?ts (Node ?tag ?a ?b ?sh ?fs) ?mx |- _ =>
       is_var sh; pose proof (CTX_sh ts tag a b sh fs mx HC eq_refl); subst sh; apply CTX_node in HC; ctx_split HC
   end.
+
+Ltac shape_ev :=
+  cbn [exp_shape]; intros _;
+  match goal with
+  | |- exists hs v, [?a] = hs ++ [v] /\ _ => exists [], a
+  | |- exists hs v, [?a; ?b] = hs ++ [v] /\ _ => exists [a], b
+  end; repeat split; first [reflexivity | assumption].
+
+Ltac shape_no := cbn [exp_shape]; let H := fresh in intros H; vm_compute in H; discriminate H.
 
 Ltac rt_call L :=
   eapply RT_bind; [ eapply L | cbv beta; intros ? ? ? ].
@@ -853,6 +875,207 @@ Proof.
     + exact Q3.
     + cbv beta. intros tr p' (Q6 & Q7 & Q8 & Q9 & Q10 & Q11). split; [exact Q6|]. split; [lia|].
       split; [exact Q8|]. split; assumption.
+Qed.
+
+(* ---------------------------------------------------------------- operands *)
+Local Notation exp_term := (exp_term_def ts lua_unops R).
+
+Lemma L_exp_term_operand p mx n g s' : G' p -> g_operand n g (SS p) = Some s' -> CTX g mx -> follow fcont mx s' ->
+  RT (exp_term (p, mx)) mx (fun t p' => SS p' = s' /\ p < p' /\ den g t = true /\ isnode t p' /\ exp_shape t /\
+                                       flat_exp (view t) = [view t]).
+Proof.
+  intros HG Hg HC Hf. destruct HG as [Hp0 HGk]. destruct n; [discriminate|]. cbn [g_operand] in Hg.
+  destruct g as [tag a b sh fs| | | | | | | |]; try discriminate. unfold exp_term_def. prim.
+  assert (Hpre : forall x, g_prefix n x (SS p) = Some s' -> CTX x mx -> sh = false -> fs = [x] -> tag = tExpValue ->
+    RT ((' a0 <- accept ts (pkw "nil"%bs);;
+      match a0 with
+      | Some (i, _) => mk tExpValue p [Kw i; PNone]
+      | None => ' a1 <- accept ts (pkw "false"%bs);;
+          match a1 with
+          | Some (i, _) => mk tExpValue p [Kw i; PBool false]
+          | None => ' a2 <- accept ts (pkw "true"%bs);;
+              match a2 with
+              | Some (i, _) => mk tExpValue p [Kw i; PBool true]
+              | None => ' a3 <- accept ts (PClass CNumber);;
+                  match a3 with
+                  | Some (i, t) => mk tExpValue p [Tok i t]
+                  | None => ' a4 <- accept ts (PClass CString);;
+                      match a4 with
+                      | Some (i, t) => mk tExpValue p [Tok i t]
+                      | None => ' a5 <- accept ts (psym "..."%bs);;
+                          match a5 with
+                          | Some (i, _) => mk tVarargDots p [Kw i]
+                          | None => ' f <- function_def ts R;;
+                              (if negb (is_none f) then mk tExpValue p [f]
+                               else ' p0 <- prefixexp_def ts R;;
+                                 (if negb (is_none p0) then mk tExpValue p [p0]
+                                  else ' t <- tableconstructor_def ts R;;
+                                    (if negb (is_none t) then mk tExpValue p (hid_list p0 ++ [t])
+                                     else ' u <- accept_first ts lua_unops;;
+                                       match u with
+                                       | Some (ui, ut) => ' e <- r_exp R;; ' e0 <- assert_node e;; mk tExpUnOp p (hid_list p0 ++ [Tok ui ut; e0])
+                                       | None => ret p0
+                                       end)))
+                          end end end end end end) (p, mx)) mx
+     (fun t p' => SS p' = s' /\ p < p' /\ den (Node tag a b sh fs) t = true /\ isnode t p' /\ exp_shape t /\ flat_exp (view t) = [view t])).
+  { intros x Hx HCx -> -> ->. pose proof (g_prefix_head _ _ _ _ Hx) as Hh.
+    assert (Hf0 : follow (anyof prefix_first) mx (SS p)) by (fhd Hh). repeat miss.
+    rewrite (bind_ok _ _ _ _ _ (L_function_none p mx Hp0 ltac:(fw))). cbn [is_none strip_paren negb].
+    eapply RT_bind; [eapply L_prefixexp; [split; assumption | exact Hx | exact HCx | exact Hf]|].
+    cbv beta. intros p1 q1 (Q1 & Q2 & Q3 & Q4 & Q5). rewrite Q5. cbn [negb]. rewrite mk_eq. apply RT_ok.
+    split; [exact Q1|]. split; [lia|]. split; [den_side|]. split; [eexists _, _, _; reflexivity|].
+    split; [shape_ev|]. rewrite view_node. apply flat_exp_other; reflexivity. }
+  gtag Hg tVarargDots.
+  { gmatch Hg. open_node. tinv Hg. repeat miss. hit. rewrite mk_eq. apply RT_ok.
+    split; [reflexivity|]. split; [lia|]. split; [den_side|]. split; [eexists _, _, _; reflexivity|].
+    split; [shape_no|]. rewrite view_node. apply flat_exp_other; reflexivity. }
+  gtag Hg tExpValue. destruct fs as [|x [|y [|? ?]]]; try discriminate; try (exfalso; gmatch Hg; fail).
+  - destruct x as [t2 xa xb xsh xfs|i0 t0| | | | | |oi oj x|]; try discriminate.
+    + pose proof (CTX_sh ts _ _ _ _ _ _ HC eq_refl) as ->. pose proof HC as HC'. apply CTX_node in HC'. ctx_split HC'.
+      gtag Hg tFunction.
+      { gmatch Hg. pose proof Hg as Hg'. osplit Hg' E. pose proof (hd_kw _ _ _ _ E) as Hh.
+        assert (Hf0 : follow (anyof [pkw "function"%bs]) mx (SS p)) by (fhd Hh). repeat miss.
+        eapply RT_bind; [eapply L_function; [split; assumption | exact Hg | eassumption]|].
+        cbv beta. intros f1 q1 (Q1 & Q2 & Q3 & Q4 & Q5). rewrite Q4. cbn [negb]. rewrite mk_eq. apply RT_ok.
+        split; [exact Q1|]. split; [lia|]. split; [den_side|]. split; [eexists _, _, _; reflexivity|].
+        split; [shape_ev|]. rewrite view_node. apply flat_exp_other; reflexivity. }
+      gtag Hg tTableConstructor.
+      { pose proof (g_table_head _ _ _ _ Hg) as Hh.
+        assert (Hf0 : follow (anyof [psym "{"%bs]) mx (SS p)) by (fhd Hh). repeat miss.
+        rewrite (bind_ok _ _ _ _ _ (L_function_none p mx Hp0 ltac:(fw))). cbn [is_none strip_paren negb].
+        rewrite (bind_ok _ _ _ _ _ (L_prefix_none p mx Hp0 ltac:(fw))). cbn [is_none strip_paren negb hid_list app].
+        eapply RT_bind; [eapply L_table; [split; assumption | exact Hg | eassumption]|].
+        cbv beta. intros f1 q1 (Q1 & Q2 & Q3 & Q4 & Q5). rewrite Q4. cbn [negb]. rewrite mk_eq. apply RT_ok.
+        split; [exact Q1|]. split; [lia|]. split; [den_side|]. split; [eexists _, _, _; reflexivity|].
+        split; [shape_ev|]. rewrite view_node. apply flat_exp_other; reflexivity. }
+      eapply Hpre; [exact Hg | eassumption | reflexivity | reflexivity | reflexivity].
+    + open_node. destruct (tokc CNumber (Tok i0 t0) (SS p)) eqn:E.
+      * injection Hg as <-. tinv E. repeat miss. hit. rewrite mk_eq. apply RT_ok.
+        split; [reflexivity|]. split; [lia|]. split; [den_side|]. split; [eexists _, _, _; reflexivity|].
+        split; [shape_ev|]. rewrite view_node. apply flat_exp_other; reflexivity.
+      * tinv Hg. repeat miss. hit. rewrite mk_eq. apply RT_ok.
+        split; [reflexivity|]. split; [lia|]. split; [den_side|]. split; [eexists _, _, _; reflexivity|].
+        split; [shape_ev|]. rewrite view_node. apply flat_exp_other; reflexivity.
+    + pose proof (CTX_sh ts _ _ _ _ _ _ HC eq_refl) as ->. pose proof HC as HC'. apply CTX_node in HC'. ctx_split HC'.
+      eapply Hpre; [exact Hg | eassumption | reflexivity | reflexivity | reflexivity].
+  - open_node. gmatch Hg; tinv Hg; repeat miss; hit; rewrite mk_eq; apply RT_ok;
+      (split; [reflexivity|]; split; [lia|]; split; [den_side|]; split; [eexists _, _, _; reflexivity|];
+       split; [shape_ev|]; rewrite view_node; apply flat_exp_other; reflexivity).
+Qed.
+
+(* ---------------------------------------------------------------- operator chains *)
+Lemma chain_rest_follow n r s1 s' mx : g_chain n false true r s1 = Some s' -> follow fexp mx s' -> follow fcont mx s1.
+Proof.
+  intros H Hf. destruct n; [discriminate|]. cbn [g_chain] in H. destruct r as [|b r].
+  - injection H as <-. fw.
+  - apply obind_some in H. destruct H as (s2 & H & _). apply tokp_inv in H. destruct H as (j & u0 & u & _ & -> & Hu).
+    rewrite is_binop_anyof in Hu. apply follow_head. eapply anyof_nomatch; [|exact Hu]. vm_compute. reflexivity.
+Qed.
+
+Lemma views3 a i o b : is_hidden a = false -> is_hidden b = false -> views [a; Tok i o; b] = [view a; Tok i o; view b].
+Proof. intros Ha Hb. rewrite !views_cons, Ha, Hb. reflexivity. Qed.
+Lemma views2 i o b : is_hidden b = false -> views [Tok i o; b] = [Tok i o; view b].
+Proof. intros Hb. rewrite !views_cons, Hb. reflexivity. Qed.
+
+Lemma L_exp_term_chain p mx n items s' : G' p -> g_chain n true true items (SS p) = Some s' -> CTXL items mx ->
+  follow fexp mx s' ->
+  RT (exp_term (p, mx)) mx (fun t p' => p < p' /\ isnode t p' /\ exp_shape t /\
+       (forall x, items = [x] -> den x t = true) /\
+       exists items1 items2 m, items = items1 ++ items2 /\ items1 <> [] /\ all2d items1 (flat_exp (view t)) = true /\
+                               g_chain m false true items2 (SS p') = Some s').
+Proof.
+  intros HG Hg HC Hf. destruct n; [discriminate|]. cbn [g_chain] in Hg. destruct items as [|x r]; [discriminate|].
+  apply CTXL_cons in HC. destruct HC as [HCx HCr].
+  assert (Hop : (s <~ g_operand n x (SS p) ;; g_chain n false true r s) = Some s' ->
+    RT (exp_term (p, mx)) mx (fun t p' => p < p' /\ isnode t p' /\ exp_shape t /\
+       (forall x0, x :: r = [x0] -> den x0 t = true) /\
+       exists items1 items2 m, x :: r = items1 ++ items2 /\ items1 <> [] /\ all2d items1 (flat_exp (view t)) = true /\
+                               g_chain m false true items2 (SS p') = Some s')).
+  { clear Hg. intros Hg. osplit Hg E.
+    eapply RT_conseq; [eapply L_exp_term_operand; [exact HG | exact E | exact HCx | eapply chain_rest_follow; eassumption]|].
+    cbv beta. intros t1 p1 (Q1 & Q2 & Q3 & Q4 & Q5 & Q6). subst s. split; [exact Q2|]. split; [exact Q4|]. split; [exact Q5|].
+    split; [intros x0 [= <- _]; exact Q3|]. exists [x], r, n. split; [reflexivity|]. split; [discriminate|]. split; [|exact Hg].
+    rewrite Q6. rewrite all2d_cons. rewrite (denotes_not_hidden _ _ Q3). unfold den in Q3. rewrite Q3. reflexivity. }
+  destruct x as [| i0 t0 | | | | | | |]; try (apply Hop, Hg). clear Hop.
+  destruct (tokp is_unop (Tok i0 t0) (SS p)) eqn:E; [|discriminate]. destruct HG as [Hp0 HGk].
+  apply tokp_inv in E. destruct E as (i & t00 & t & [= <- <-] & Hs & Hu). rewrite is_unop_anyof in Hu.
+  destruct (spos ts p i0 t s Hp0 Hs) as (Hle & Hlt & Hn). subst s.
+  pose proof (CTX_tok ts _ _ _ HCx) as Hlim.
+  assert (Hf0 : follow (anyof gunops) mx (SS p)). { rewrite Hs. apply follow_head. exact Hu. }
+  unfold exp_term_def. prim. repeat miss.
+  rewrite (bind_ok _ _ _ _ _ (L_function_none p mx Hp0 ltac:(fw))). cbn [is_none strip_paren negb].
+  rewrite (bind_ok _ _ _ _ _ (L_prefix_none p mx Hp0 ltac:(fw))). cbn [is_none strip_paren negb hid_list app].
+  rewrite (bind_ok _ _ _ _ _ (L_table_none p mx Hp0 ltac:(fw))). cbn [is_none strip_paren negb].
+  rewrite (bind_accept_first_hit ts lua_unops _ p mx i0 t _ lua_unops_nt Hp0 Hs Hlim
+             ltac:(eapply anyof_sub; [|exact Hu]; vm_compute; reflexivity)). cbv beta iota zeta.
+  eapply RT_bind; [eapply (c_exp _ _ HR); [gd | exact Hg | exact HCr | exact Hf]|].
+  cbv beta. intros e p1 (Q1 & Q2 & Q3 & Q4 & Q5 & Q6). destruct (isnode_facts _ _ Q5) as (Qh & Qn & _).
+  rewrite bind_assert by exact Qn. rewrite mk_eq. apply RT_ok.
+  split; [lia|]. split; [eexists _, _, _; reflexivity|]. split; [shape_no|].
+  split; [intros x0 [= <- E0]; subst r; destruct n; discriminate Hg|].
+  exists (Tok i0 t0 :: r), [], 1%nat. split; [rewrite app_nil_r; reflexivity|]. split; [discriminate|].
+  split; [|rewrite Q1; reflexivity].
+  rewrite view_node, views2 by exact Qh. rewrite flat_exp_unop, all2d_cons. cbn [is_hidden denotes].
+  rewrite Z.eqb_refl. exact Q3.
+Qed.
+
+Local Notation binop := (binop_def ts lua_binops lua_unops R).
+
+Lemma L_binop : binop_ok G' binop.
+Proof.
+  intros first p mx n items s' HG Hg HC Hf Hnode Hshape. destruct HG as [Hp0 HGk].
+  destruct n; [discriminate|]. cbn [g_chain] in Hg. unfold binop_def. prim. destruct items as [|b r].
+  - injection Hg as <-.
+    rewrite (bind_accept_first_miss ts fexp lua_binops _ p mx lua_binops_nt Hp0 Hf
+               ltac:(intros k0 H0; eapply nomatch_sub; [|exact H0]; vm_compute; reflexivity)). cbv beta iota zeta.
+    prim. rewrite ret_eq. apply RT_ok. split; [reflexivity|]. split; [lia|].
+    split; [exists []; split; [rewrite app_nil_r; reflexivity | reflexivity]|]. split; [reflexivity|]. split; assumption.
+  - osplit Hg E. apply CTXL_cons in HC. destruct HC as [HCb HCr].
+    apply tokp_inv in E. destruct E as (i & t0 & t & -> & Hs & Hu). rewrite is_binop_anyof in Hu.
+    destruct (spos ts p i t s Hp0 Hs) as (Hle & Hlt & Hn). subst s. pose proof (CTX_tok ts _ _ _ HCb) as Hlim.
+    rewrite (bind_accept_first_hit ts lua_binops _ p mx i t _ lua_binops_nt Hp0 Hs Hlim
+               ltac:(eapply anyof_sub; [|exact Hu]; vm_compute; reflexivity)). cbv beta iota zeta.
+    eapply RT_bind; [eapply L_exp_term_chain; [gd | exact Hg | exact HCr | exact Hf]|].
+    cbv beta. intros t1 p1 (Q1 & Q2 & Q3 & Q4 & items1 & items2 & m & -> & Q5 & Q6 & Q7).
+    destruct (isnode_facts _ _ Q2) as (Qh & Qn & _). rewrite bind_assert by exact Qn. prim.
+    apply CTXL_app in HCr. destruct HCr as [HC1 HC2]. destruct (isnode_facts _ _ Hnode) as (Fh & Fn & _).
+    eapply RT_conseq; [eapply (c_binop _ _ HR (Node tExpBinOp p p1 false [first; Tok i t; t1])); [gd | exact Q7 | exact HC2 | exact Hf | eexists _, _, _; reflexivity | shape_no]|].
+    cbv beta. intros t2 p2 (Q8 & Q9 & (ys & Q10 & Q11) & Q12 & Q13 & Q14).
+    split; [exact Q8|]. split; [lia|]. split; [|split; [discriminate | split; assumption]].
+    rewrite view_node, views3, flat_exp_binop in Q10 by assumption.
+    exists (Tok i t :: flat_exp (view t1) ++ ys). split; [rewrite Q10, <- app_assoc; reflexivity|].
+    rewrite all2d_cons. cbn [is_hidden denotes]. rewrite Z.eqb_refl. cbn [andb]. apply all2d_app; assumption.
+Qed.
+
+Lemma app_single {A} (l1 l2 : list A) x : l1 ++ l2 = [x] -> l1 <> [] -> l2 = [].
+Proof.
+  destruct l1 as [|a [|b l1]]; intros H Hn; [contradiction | | discriminate H].
+  cbn [app] in H. injection H as _ H. exact H.
+Qed.
+
+Lemma L_exp : exp_ok G' (exp_def ts lua_binops lua_unops R).
+Proof.
+  intros p mx n items s' HG Hg HC Hf. unfold exp_def.
+  eapply RT_bind; [eapply L_exp_term_chain; [exact HG | exact Hg | exact HC | exact Hf]|].
+  cbv beta. intros t1 p1 (Q1 & Q2 & Q3 & Q4 & items1 & items2 & m & -> & Q5 & Q6 & Q7).
+  destruct (isnode_facts _ _ Q2) as (Qh & Qn & _). rewrite Qn.
+  apply CTXL_app in HC. destruct HC as [HC1 HC2]. destruct HG as [Hp0 HGk].
+  eapply RT_conseq; [eapply (L_binop t1); [gd | exact Q7 | exact HC2 | exact Hf | exact Q2 | exact Q3]|].
+  cbv beta. intros t2 p2 (Q8 & Q9 & (ys & Q10 & Q11) & Q12 & Q13 & Q14).
+  split; [exact Q8|]. split; [lia|]. split; [unfold ditems; rewrite Q10; apply all2d_app; assumption|].
+  split; [|split; assumption]. intros x Hx. pose proof (app_single _ _ _ Hx Q5) as ->. rewrite (Q12 eq_refl).
+  apply Q4. exact Hx.
+Qed.
+
+Lemma L_exp_none : exp_none G' (exp_def ts lua_binops lua_unops R).
+Proof.
+  intros p mx HG Hf. destruct HG as [Hp0 HGk]. unfold exp_def, exp_term_def. prim. repeat (miss; prim).
+  rewrite (bind_ok _ _ _ _ _ (L_function_none p mx Hp0 ltac:(fw))). cbn [is_none strip_paren negb]. prim.
+  rewrite (bind_ok _ _ _ _ _ (L_prefix_none p mx Hp0 ltac:(fw))). cbn [is_none strip_paren negb hid_list app]. prim.
+  rewrite (bind_ok _ _ _ _ _ (L_table_none p mx Hp0 ltac:(fw))). cbn [is_none strip_paren negb]. prim.
+  rewrite (bind_accept_first_miss ts fstop lua_unops _ p mx lua_unops_nt Hp0 Hf
+             ltac:(intros k0 H0; eapply anyof_nomatch; [|exact H0]; vm_compute; reflexivity)). cbv beta iota zeta.
+  prim. reflexivity.
 Qed.
 
 End Step.
